@@ -47,7 +47,8 @@ EdgeRec ==
     exp |-> [ delivered |-> [allowed |-> last'.allowed,
                              rule |-> RuleOf(last', hist, hist'[Len(hist')].mid, closed)] ],
     ext |-> [ delivered |-> last'.delivered,
-              bound |-> [s \in Ssrcs |-> bySsrc'[s] # 0] ],
+              bound |-> [s \in Ssrcs |-> bySsrc'[s] # 0],
+              fwd |-> IF last'.fwd THEN 1 ELSE 0 ],      \* datagrams arriving at the bridge target
     cls |-> ClsOf(last', "", full) ]
 
 \* the transition overwrote or removed something the registry knew
@@ -56,6 +57,7 @@ Destructive ==
   \/ \E r \in Rids : byRid[r] # 0 /\ byRid'[r] # byRid[r]
   \/ \E m \in Mids : byMid[m] # 0 /\ byMid'[m] # byMid[m]
   \/ \E l \in Ls : route[l].on /\ (~route'[l].on \/ ~(route[l].pts \subseteq route'[l].pts))
+  \/ bridged' # bridged        \* a bridge installed / cleared: the demux must stop / resume with the registry intact
 
 \* the transition is a packet that some branch of the chain took: the model says the only thing it may
 \* have changed is the SSRC binding - probe that nothing else (and nothing more) was remembered
@@ -63,12 +65,13 @@ TookPacket == last'.kind = "pkt" /\ last'.by # "none"
 
 \* a probe packet evaluated in the state AFTER the transition, as a compact tuple:
 \*   <<s, pt, rid, mid, allowed outcomes, rule, model outcome, model bound-vector, by, closedHit, holders,
-\*     provs, identified, unreg, fullHit>>
+\*     provs, identified, unreg, fullHit, fwd>>
 ProbeTuple(s, pt, rid, mid) ==
   LET e == PktEffect(s, pt, rid, mid)' IN
   << s, pt, rid, mid, e.last.allowed, RuleOf(e.last, hist', mid, closed'), e.last.delivered,
      [x \in Ssrcs |-> e.bySsrc[x] # 0], e.last.by, e.last.failed # 0, Cardinality(e.last.holders),
-     Cardinality(e.last.provs), e.last.identified, e.last.unreg, e.last.sel \in full' >>
+     Cardinality(e.last.provs), e.last.identified, e.last.unreg, e.last.sel \in full',
+     IF e.last.fwd THEN 1 ELSE 0 >>
 
 ProbeLine ==
   [ cfg    |-> [rid |-> cfg0.rid, mid |-> cfg0.mid],
